@@ -12,7 +12,7 @@ open Humphrey Humphrey.Bytes Humphrey.IO
 /-- Every spelling in the (generated) table is a colon- and LF-free UTF-8 string that lower-cases to
 its key. Re-checked against the running code's table on every run. -/
 theorem header_table_display_ok : ∀ row ∈ Generated.headerTable,
-    avoids [COLON, LF] row.2.1 ∧ utf8Valid row.2.1 = true ∧ asciiLower row.2.1 = row.1 := by decide
+    avoids [COLON, LF] row.2.1 ∧ utf8Valid row.2.1 = true ∧ asciiLower row.2.1 = row.1 := by decide +kernel
 
 theorem lookup_mem {l d : Bytes} {c : Nat} : ∀ {t : List (Bytes × Bytes × Nat)},
     lookup l t = some (d, c) → (l, d, c) ∈ t
